@@ -431,3 +431,13 @@ PROPS["C09"]["engines"] = PROPS["C09"]["engines"] + ["maint"]
 PROPS["C09"]["rule"] += _MAINT_PASS + (" ; pass cases with a stale entry at the address of a good contact whose host answers pings under its new id: after the pass a find_node "
                                        "for the stale id must not list it (oracle listed-contact-never-answered-under-that-id:after-maintenance)")
 PROPS["C01"]["rule"] += _MAINT_PASS
+_MAINT_TRUSTED = ("maint pass cases: the end of a pass is read off the maintainer goroutine's stack (select inside TableMaintainer); a sender whose datagram will be "
+                  "answered is given an 8 s resend delay through ServerConfig.QueryResendDelay (goroutine id of the writer), all others 12 ms; the network's behaviour "
+                  "(who answers ping / find_node, under which id) is the harness's script and the model's parameters answers / refresh; the one-minute pause and the "
+                  "30-minute bootstrap period are not waited for")
+for _p in ("C01", "C05", "C06", "C09", "C14"):
+    PROPS[_p]["trusted"] = list(PROPS[_p].get("trusted", [])) + [_MAINT_TRUSTED]
+PROPS["C06"]["assumptions"] = list(PROPS["C06"].get("assumptions", [])) + [
+    "C06_maint_pass_keeps_good: the refresh traversals themselves keep good entries (good_preserving refresh) - the packet path's statement C06_good_kept"]
+PROPS["C05"]["assumptions"] = list(PROPS["C05"].get("assumptions", [])) + [
+    "C05_maint_pass_keeps_structure: the refresh traversals keep ids, addresses and slots of the entries (shape_preserving refresh) - the packet path's invariant C05_inv"]
